@@ -89,7 +89,13 @@ Inductive tkind :=
 | KGoToCol (c : nat)
 | KErrorStop.                                      (* And._ErrorStop *)
 
-Inductive nkind := NAnd | NMatchFirst | NOr | NEach.
+(* Each carries, per child (in the order of `exprs`), what `Each.parseImpl` reads from the real objects beyond the
+   dumped structure: the child's `mayReturnEmpty`, and two equality classes under `ParserElement.__eq__`
+   (`vars(self) == vars(other)`, what `e in tmpReqd` / `tmpOpt.remove(e)` use): the class of the child object itself and
+   the class of the operand derived from it (`e.expr` of an Opt; `e.expr.set_results_name(e.resultsName, True)` of a
+   ZeroOrMore/OneOrMore; the child itself otherwise).  Equal numbers = `==` holds (identical objects included). *)
+Definition each_info := (bool * (nat * nat))%type.
+Inductive nkind := NAnd | NMatchFirst | NOr | NEach (info : list each_info).
 
 Inductive ekind :=
 | EPass                     (* ParseElementEnhance.parseImpl unchanged: Forward is separate; DelimitedList, TokenConverter *)
@@ -726,6 +732,168 @@ Fixpoint rep_go (k : kont -> prg) (fail_or_empty : outcome -> prg) (e body : exp
       end)
   end.
 
+(* ------------------------------------------------------------------------------------------- *)
+(* Each.parseImpl                                                                               *)
+(* ------------------------------------------------------------------------------------------- *)
+Definition set_attrs (e : expr) (a : attrs) : expr :=
+  match e with
+  | Tok _ i t => Tok a i t
+  | Nary _ i k es => Nary a i k es
+  | Enh _ i k c => Enh a i k c
+  | Rep _ i z c ne => Rep a i z c ne
+  | Skip _ i c incl ig fo => Skip a i c incl ig fo
+  | Fwd _ i b => Fwd a i b
+  end.
+
+(* `e.set_results_name(n, list_all_matches=True)` with n not None: a copy with resultsName = n, modalResults = False.
+   (The copy is a new Python object; it keeps the node id of the original here, which names its errmsg / str(); inside
+   Each its identity is tracked by the `copy` flag of its entry.  Deviation: the packrat cache keys of such a copy and
+   of its original are only told apart by their different attributes.) *)
+Definition named_copy (e : expr) (n : str) : expr :=
+  let a := attrs_of e in
+  set_attrs e {| nid := nid a; rsname := Some n; modalr := false; aslist := aslist a; skipws := skipws a; white := white a;
+                 callpre := callpre a; mayidx := mayidx a; custom := custom a; hasmsg := hasmsg a; acts := acts a;
+                 calltry := calltry a; slen := slen a |}.
+
+(* an element of self.required / self.optionals / self.multioptionals :
+   (equality class, is a copy made by initExprGroups, the element) *)
+Definition each_ent := (nat * bool * expr)%type.
+Definition ee_cls (en : each_ent) : nat := fst (fst en).
+Definition ee_copy (en : each_ent) : bool := snd (fst en).
+Definition ee_e (en : each_ent) : expr := snd en.
+
+Definition is_opt (e : expr) : bool := match e with Enh _ _ (EOpt _) _ => true | _ => false end.
+Definition is_zom (e : expr) : bool := match e with Rep _ _ true _ _ => true | _ => false end.
+Definition is_rep (e : expr) : bool := match e with Rep _ _ _ _ _ => true | _ => false end.
+
+(* e.expr.set_results_name(e.resultsName, list_all_matches=True) : `self` when the name is None, else a copy *)
+Definition rep_operand (c body : expr) : bool * expr :=
+  match rsname (attrs_of c) with
+  | None => (false, body)
+  | Some n => (true, named_copy body n)
+  end.
+
+Definition each_zip (es : list expr) (info : list each_info) : list (expr * each_info) := combine es info.
+
+(* opt1 = [e.expr for e in self.exprs if isinstance(e, Opt)] *)
+Definition each_opt1 (zs : list (expr * each_info)) : list each_ent :=
+  flat_map (fun z => match fst z with
+                     | Enh _ _ (EOpt _) b => [(snd (snd (snd z)), false, b)]
+                     | _ => []
+                     end) zs.
+(* opt2 = [e for e in self.exprs if e.mayReturnEmpty and not isinstance(e, (Opt, Regex, ZeroOrMore))] *)
+Definition each_opt2 (zs : list (expr * each_info)) : list each_ent :=
+  flat_map (fun z => if fst (snd z) && negb (is_opt (fst z)) && negb (is_zom (fst z))
+                     then [(fst (snd (snd z)), false, fst z)] else []) zs.
+(* multioptionals (only_plus = false: every _MultipleMatch) / multirequired (only_plus = true: OneOrMore) *)
+Definition each_multi (only_plus : bool) (zs : list (expr * each_info)) : list each_ent :=
+  flat_map (fun z => match fst z with
+                     | Rep _ _ zero b _ =>
+                       if only_plus && zero then []
+                       else [(snd (snd (snd z)), fst (rep_operand (fst z) b), snd (rep_operand (fst z) b))]
+                     | _ => []
+                     end) zs.
+(* [e for e in self.exprs if not isinstance(e, (Opt, ZeroOrMore, OneOrMore))] *)
+Definition each_req1 (zs : list (expr * each_info)) : list each_ent :=
+  flat_map (fun z => if is_opt (fst z) || is_rep (fst z) then [] else [(fst (snd (snd z)), false, fst z)]) zs.
+
+(* `e in lst` / `lst.remove(e)` for ParserElements: the first member that is `e` or `== e` *)
+Definition mem_cls (c : nat) (l : list each_ent) : bool := existsb (fun en => Nat.eqb (ee_cls en) c) l.
+Fixpoint remove_cls (c : nat) (l : list each_ent) : list each_ent :=
+  match l with
+  | [] => []
+  | en :: t => if Nat.eqb (ee_cls en) c then t else en :: remove_cls c t
+  end.
+
+(* self.opt1map.get(id(e), e) : opt1map = dict((id(e.expr), e) for e in self.exprs if isinstance(e, Opt)); later wins *)
+Definition each_order (es : list expr) (en : each_ent) : expr :=
+  if ee_copy en then ee_e en
+  else match find (fun c => match c with
+                            | Enh _ _ (EOpt _) b => Nat.eqb (nid (attrs_of b)) (nid (attrs_of (ee_e en)))
+                            | _ => false
+                            end) (rev es) with
+       | Some c => c
+       | None => ee_e en
+       end.
+
+(* one execution of `for e in tmpExprs:` ; state = tmpLoc, tmpReqd, tmpOpt, matchOrder, len(failed), fatals *)
+Fixpoint each_round (fail : exn -> prg) (es : list expr) (s : str) (cands : list each_ent) (tl : nat)
+         (reqd opt : list each_ent) (mo : list expr) (nf : nat) (fatals : list (exn * nat))
+         (k : nat -> list each_ent -> list each_ent -> list expr -> nat -> list (exn * nat) -> prg) : prg :=
+  match cands with
+  | [] => k tl reqd opt mo nf fatals
+  | en :: rest =>
+    try_parse (ee_e en) s tl false true (fun o =>
+      match o with
+      | Ok tl' _ =>
+        let mo' := mo ++ [each_order es en] in
+        if mem_cls (ee_cls en) reqd then each_round fail es s rest tl' (remove_cls (ee_cls en) reqd) opt mo' nf fatals k
+        else if mem_cls (ee_cls en) opt then each_round fail es s rest tl' reqd (remove_cls (ee_cls en) opt) mo' nf fatals k
+        else each_round fail es s rest tl' reqd opt mo' nf fatals k
+      | Div => Ret Div
+      | Err x =>
+        if is_fatal (xk x) then
+          each_round fail es s rest tl reqd opt mo (S nf)
+            (fatals ++ [(mkx (xk x) (xloc x) (xmsg x) (Some (nid (attrs_of (ee_e en)))), slen (attrs_of (ee_e en)))]) k
+        else if is_pe (xk x) then each_round fail es s rest tl reqd opt mo (S nf) fatals k
+        else fail x                       (* `except ParseException` : anything else (IndexError included) propagates *)
+      end)
+  end.
+
+(* `while keepMatching:` ; a round in which something matched but neither the location nor the lists changed repeats
+   itself for ever in the real code (a repeatable operand that matches without consuming): Div.  `fuel` bounds the
+   number of rounds (each other round consumes input or removes an operand): see each_fuel. *)
+Fixpoint each_loop (fail : exn -> prg) (es : list expr) (s : str) (fuel : nat) (tl : nat)
+         (reqd opt multis : list each_ent) (mo : list expr)
+         (k : list each_ent -> list each_ent -> list expr -> list (exn * nat) -> prg) : prg :=
+  match fuel with
+  | 0 => Ret Div
+  | S f =>
+    let cands := reqd ++ opt ++ multis in
+    each_round fail es s cands tl reqd opt mo 0 [] (fun tl' reqd' opt' mo' nf fatals =>
+      if Nat.eqb nf (length cands) then k reqd' opt' mo' fatals
+      else if Nat.eqb tl' tl && Nat.eqb (length reqd') (length reqd) && Nat.eqb (length opt') (length opt) then Ret Div
+      else each_loop fail es s f tl' reqd' opt' multis mo' k)
+  end.
+
+(* Bound on the number of rounds.  Every match of a candidate taken from tmpReqd / tmpOpt removes one element of these
+   lists (the candidates of a round are exactly their members), so without repeatable operands there are at most
+   |required| + |optionals| rounds with a match, plus the last one; a repeatable operand can add one round per character. *)
+Definition each_fuel (slen : nat) (reqd opt multis : list each_ent) : nat :=
+  (match multis with [] => 0 | _ :: _ => slen end) + length reqd + length opt + 3.
+
+(* the second pass: `for e in matchOrder: loc, results = e._parse(instring, loc, do_actions); total_results += results` *)
+Fixpoint each_go2 (k : kont -> prg) (s : str) (d : bool) (mo : list expr) (loc : nat) (acc : pres) : prg :=
+  match mo with
+  | [] => k (inr (loc, RPR acc))
+  | c :: rest =>
+    call c s loc d true (fun o =>
+      match o with
+      | Ok loc' r => each_go2 k s d rest loc' (pr_iadd acc r)
+      | Div => Ret Div
+      | Err x => fail_of k x
+      end)
+  end.
+
+Definition each_impl (k : kont -> prg) (es : list expr) (info : list each_info) (s : str) (loc : nat) (d : bool) : prg :=
+  let zs := each_zip es info in
+  let reqd := each_req1 zs ++ each_multi true zs in                 (* self.required += self.multirequired *)
+  let opt := each_opt1 zs ++ each_opt2 zs in
+  let multis := each_multi false zs in
+  each_loop (fail_of k) es s (each_fuel (length s) reqd opt multis) loc reqd opt multis []
+    (fun reqd' opt' mo fatals =>
+       match pick_fatal fatals with
+       | Some fx => fail_of k fx
+       | None =>
+         match reqd' with
+         | _ :: _ => fail_of k (mkx XParse (Z.of_nat loc) (MMissing (map (fun en => nid (attrs_of (ee_e en))) reqd')) None)
+         | [] =>
+           (* matchOrder += [e for e in self.exprs if isinstance(e, Opt) and e.expr in tmpOpt] *)
+           let unmatched := flat_map (fun z => if is_opt (fst z) && mem_cls (snd (snd (snd z))) opt' then [fst z] else []) zs in
+           each_go2 k s d (mo ++ unmatched) loc pr_empty
+         end
+       end).
+
 Definition impl (e : expr) (s : str) (loc : nat) (d : bool) (k : kont -> prg) : prg :=
   let a := attrs_of e in
   let fail := fail_of k in
@@ -763,7 +931,7 @@ Definition impl (e : expr) (s : str) (loc : nat) (d : bool) (k : kont -> prg) : 
           else or_go2 k tail s loc sorted None best
         end) in
     if forallb (fun c => callpre (attrs_of c)) es then pre_parse fail e s loc start else start loc
-  | Nary _ _ NEach es => fail (mkx XOther 0%Z MEmpty None)      (* Each: not modelled yet (reported as unsupported by the harness) *)
+  | Nary _ _ (NEach info) es => each_impl k es info s loc d
   | Enh _ _ ek c =>
     let passthrough (loc : nat) : prg :=
       call c s loc d false (fun o =>
